@@ -12,7 +12,17 @@ Inductive obs :=
 | OReload      (* mergeTypes accepted, gqlparser.LoadSchema of the formatted result rejected it *)
 | OOther.      (* panic or an error class the model does not know *)
 
-Record mcase := mkCase { mHide : bool; mInputs : list input; mObs : obs }.
+(* what the real PlanningContext.GetURL said for (type, field, asked from) *)
+Inductive oroute := ORUrl (u : string) | ORNoType | ORNoField | OROther.
+Definition route_agrees (m : route) (o : oroute) : bool :=
+  match m, o with
+  | RUrl u, ORUrl u' => u =? u'
+  | RNoType, ORNoType | RNoField, ORNoField => true
+  | _, _ => false
+  end.
+
+Record mcase := mkCase { mHide : bool; mInputs : list input; mObs : obs;
+                         mRoutes : list (string * string * string * oroute) }.
 
 Fixpoint list_eqb {A} (e : A -> A -> bool) (a b : list A) : bool :=
   match a, b with [], [] => true | x :: a', y :: b' => e x y && list_eqb e a' b' | _, _ => false end.
@@ -51,7 +61,9 @@ Definition inputs_wf (c : mcase) : bool := forallb (fun i => Merge.Proofs.wf_sch
 Definition agrees (c : mcase) : bool :=
   inputs_wf c &&
   match mObs c, model_of c with
-  | OOk types tm, MOk mt mtm => schema_eq mt types && tm_eq mtm tm
+  | OOk types tm, MOk mt mtm =>
+      schema_eq mt types && tm_eq mtm tm &&
+      forallb (fun r => match r with (ty, fld, fb, o) => route_agrees (get_url mtm ty fld fb) o end) (mRoutes c)
   | OErr e, MErr es => existsb (merr_eqb e) es
   | OReload, MOk _ _ => true
   | _, _ => false
